@@ -327,6 +327,7 @@ func Generate(r *runner.Rand, sh Shape) (*Case, error) {
 		return nil
 	}
 	withStyp := r.Bool()
+	emptyFrag := false
 	for fi := 0; fi < nfrag; fi++ {
 		if seg == nil || r.Bool() {
 			if err := flushSeg(); err != nil {
@@ -354,6 +355,11 @@ func Generate(r *runner.Rand, sh Shape) (*Case, error) {
 		nsamp := r.Range(1, 5)
 		if sh.IVGuess > 0 && fi == 0 {
 			nsamp = 3
+		}
+		if fi > 0 && !optimize && r.Chance(1, 12) {
+			// a fragment without samples (a gap in a live stream): zero-entry trun, saiz, saio, senc
+			nsamp = 0
+			emptyFrag = true
 		}
 		uniformDur := uint32(r.PickInt(1024, 3000, 512, 1))
 		varyDur := r.Chance(1, 3)
@@ -418,6 +424,9 @@ func Generate(r *runner.Rand, sh Shape) (*Case, error) {
 	}
 	if optimize {
 		c.Traits = append(c.Traits, "optimized-trun")
+	}
+	if emptyFrag {
+		c.Traits = append(c.Traits, "empty-fragment")
 	}
 	return c, nil
 }
